@@ -293,8 +293,15 @@ func negClientCase(l negLine, variant int, res *hx.Result) {
 		res.Violate("C10", "client-first-message:"+sig, fmt.Sprintf("client opened with %v %+v tag %d", tv.Type, tv.Message, tv.Tag), rep)
 		return
 	}
-	raw.WriteFcall(bg, &p9p.Fcall{Type: p9p.Rversion, Tag: p9p.NOTAG, Message: p9p.MessageRversion{MSize: a, Version: "9P2000"}})
+	// the server may also answer with another version string (a shorter one, as version(5) allows, or "unknown"):
+	// the client may refuse that - but if it goes on, it goes on with the minimum of the two msizes
+	vstr := []string{"9P2000", "9P2000", "9P2000", "9P", "", "unknown", "9P2000.u"}[variant%7]
+	rep["answer_version"] = vstr
+	raw.WriteFcall(bg, &p9p.Fcall{Type: p9p.Rversion, Tag: p9p.NOTAG, Message: p9p.MessageRversion{MSize: a, Version: vstr}})
 	r := <-sc
+	if r.err != nil && vstr != "9P2000" {
+		return
+	}
 	if r.err != nil {
 		if !strings.HasPrefix(r.err.Error(), "panic:") {
 			res.Violate("C10", "client-session-failed:"+sig, r.err.Error(), rep)
@@ -450,8 +457,12 @@ func Neg(args []string) {
 		if l.T == "server" && l.Kind == "Tversion" {
 			versions = []string{"9P2000", "9P2000.u", "", "unknown"}
 		}
+		nv := 2
+		if l.T != "server" {
+			nv = 7 // (client side: the variant also selects the version string of the server's answer)
+		}
 		for vi, ver := range versions {
-			for variant := 0; variant < 2; variant++ {
+			for variant := 0; variant < nv; variant++ {
 				wg.Add(1)
 				sem <- struct{}{}
 				distinct++
